@@ -13,6 +13,11 @@ CHECKS = {
    text="All 513 actions, all 263 169 pairs, all 513^3 triples and all i8 are enumerated in both tiers; the thorough tier converts every one of the 2^32 f32 bit patterns (quick: every 61st magnitude plus +-64 patterns around each rounding boundary), f64 on +-4 ulp neighbourhoods of every k/255 and (k+0.5)/255 plus seeded random patterns. Complete for the finite parts of the quantifier.",
    note="Oracle: signed-strength lattice model and float validity predicates (total, sign, monotone, nearest step, saturation). Known finding: Eq/Ord disagree on {Buy(0), Sell(0)} (listed in known_findings.txt).",
    ref="DESIGN.md §5 C16"),
+ "C04": dict(
+   technique="PBT + bounded-exhaustive small-scope enumeration against from-scratch selection oracles (exact ==)",
+   text="Every stream of length <= 7 (thorough 9) over {-0.0,+0.0,-2,1} for n=1..4 exhaustively, plus proptest tie-forcing alphabet streams and segment-built streams for every length 1..=254; max/min/delta/newest-arg-extremum age/median and SMM::get_window compared exactly with the from-scratch value on the padded history at every step.",
+   note="Trusted: naive reference in refm::sel; inputs finite. Exact comparison with == (only the sign of zero is tolerated).",
+   ref="DESIGN.md §5 C04"),
 }
 
 PENDING = {
